@@ -415,7 +415,7 @@ func init() {
 		Prop: "C14", Level: "exploration",
 		Gen:  genC14,
 		Exec: execC14,
-		Quick: 100, Thorough: 3000,
+		Quick: 300, Thorough: 9000,
 		Chunk:      5,
 		NonTrivial: func(res *Result) bool { return res.Status != "invalid" && res.Status != "crash" && res.Stats["values.checked"] > 0 && res.Stats["reach.interleaved"] > 0 },
 		Rule:       "one batch scenario per evaluation: 4-18 lines of ONE generated project in one session (its config.yml is pooled and shared), each with a random subset of key=value overrides (numeric, text, on/off kinds, keys that do not exist) in varying argument positions, a random subset of keys left out of the file, executed by the real dispatcher under the seeded scheduler; reference model defaults (+) file (+) line; observables: state echoes bound through the output configuration (12 keys) and behaviour (file extension, style, interval, end date); permuted copies of a line must give byte-identical streams; non-trivial = values were compared and at least two runs were parked simultaneously",
